@@ -85,6 +85,9 @@ def make_cfg(seed, i, for_ref=False):
         cfg["args"]["maxfun"] = 60
         cfg.pop("failpoint", None)
     campaign.maybe_failpoint(cfg, rng, p=(0.0 if (for_ref and i % 4 == 1) else 0.1))
+    forms = gen.sample_forms(np.random.default_rng([int(seed), NUM, int(i), 5]), p=0.2)     # calling forms: counts must not depend on them
+    if forms:
+        cfg["_forms"] = forms
     return cfg
 
 
